@@ -61,3 +61,11 @@ def _mk_Slot(ex, node, st):
 
 REG.constructors['RO'] = _mk_RO
 REG.constructors['Slot'] = _mk_Slot
+
+# -- pilot update dicts ----------------------------------------------------------
+PilotRes  = T.Rec('PilotRes', rm_info=OAny)
+REG.optional_keys['PilotRes'] = {'rm_info'}
+PilotDict = T.Rec('PilotDict', uid=T.Str, state=OStr, resources=T.Opt(PilotRes),
+                  resource_details=OAny, lm_info=OAny, lm_detail=OAny, type=OStr)
+REG.optional_keys['PilotDict'] = set(PilotDict.fields) - {'uid'}
+REG.types['PilotDict'] = PilotDict
